@@ -458,6 +458,14 @@ def rules(ctx):
     formation_edits(ctx, "R3")
     from .C12 import path_new_checks_every_hop
     path_new_checks_every_hop(ctx, "R4")     # a dead-head trip is listed for every hop of a tour: the hops were validated when the path was built
+    # "each [dead-head trip] lying inside the gap between the two activities it connects" presupposes that consecutive activities of
+    # an itinerary are connectable; after an insertion that rests on the two position walks evicting every unreachable node (shared
+    # with C12; round 8, C03h_1: an `if` for the `while` left the second unreachable node in the tour and its dead-head trip overlapped it)
+    from .C12 import scans_are_loops
+    before = len(ctx.obligations)
+    scans_are_loops(ctx)
+    for o in ctx.obligations[before:]:
+        o.id = o.id.replace("C03/R1.", "C03/R4.positions.")
     dead_heads(ctx)
     from . import order
     order.pair_order(ctx, "R4", only={"solution::json_serialisation::schedule_dead_head_trip", N("minimal_duration_between_nodes")})
